@@ -58,6 +58,7 @@ type Exec struct {
 	funcsSeen  map[string]bool
 	lemmaErrors []string
 	pure        int
+	hmArrays    map[string]string
 	heapViews   map[string]*heapViewInfo
 	sumFields   map[string][]string
 	pureEval    int
@@ -116,8 +117,12 @@ func (x *Exec) sortOf(T types.Type) string { return x.reg.sortOf(T) }
 
 func (x *Exec) heapName(objT types.Type) (string, string) {
 	s := x.sortOf(objT)
-	x.recordArrType("H_"+sortId(s), objT)
-	return "H_" + sortId(s), "(Array Int " + s + ")"
+	id := sortId(s)
+	if _, isStruct := objT.Underlying().(*types.Struct); !isStruct {
+		id = sanitize(x.typeId(objT))
+	}
+	x.recordArrType("H_"+id, objT)
+	return "H_" + id, "(Array Int " + s + ")"
 }
 
 func (x *Exec) recordArrType(name string, T types.Type) {
@@ -686,7 +691,7 @@ func (x *Exec) frameCheck(st *State, fr *Frame, ref string, in ssa.Instruction) 
 }
 
 func (x *Exec) allowed(ref, entryAlloc string, mods []string) string {
-	parts := []string{app(">=", ref, entryAlloc)}
+	parts := []string{app(">=", ref, entryAlloc), eq(ref, "0")} // the nil object is never actually written
 	for _, m := range mods {
 		parts = append(parts, modMatch(ref, m))
 	}
